@@ -21,6 +21,8 @@ func main() {
 	out := flag.String("out", "", "output file (trace mode)")
 	tier := flag.String("tier", "quick", "quick | thorough")
 	flag.Bool("replaying", false, "a single recorded case is being replayed")
+	scen := flag.String("scenario", "", "C13: scenario class (child process)")
+	iters := flag.Int("iters", 50, "C13: iterations per goroutine")
 	flag.Parse()
 	h.Tier, h.Seed = *tier, *seed
 	switch *mode {
@@ -69,6 +71,8 @@ func main() {
 		w.Flush()
 		f.Close()
 		json.NewEncoder(os.Stdout).Encode(info)
+	case "scenario":
+		os.Exit(h.RunScenario13(*scen, *n, *iters))
 	case "features":
 		// signature of a recorded history (its first event carries the query)
 		var c h.Node
